@@ -3,6 +3,7 @@
 //!   vh-core record <machine> --cfg <id> --seed S --n N --out FILE   real executions -> ndjson trace
 mod bigint;
 mod cfgs;
+mod container;
 mod mle;
 mod msm;
 mod ser;
@@ -90,6 +91,7 @@ fn main() {
         ("replay", "ser") if !big => with_toy_curve!(cfg.as_str(), replay_ser(big)),
         ("replay", "msm") if !big => with_toy_curve!(cfg.as_str(), replay_msm(big)),
         ("replay", "mle") if !big => with_toy_prime_field!(cfg.as_str(), replay_mle(big)),
+        ("replay", "container") => { let stdin = std::io::stdin(); container::replay(util::tlc_transitions(BufReader::new(stdin.lock()))) }
         ("replay", "bigint") => { let nl: usize = cfg.parse().expect("--cfg <limbs>"); with_limbs!(nl, replay_bigint()) }
         ("record", "curve") => {
             let seed: u64 = arg(&args, "--seed").and_then(|s| s.parse().ok()).unwrap_or(1);
